@@ -44,7 +44,7 @@ BOUNDARY = {
     'get_cycles': [dict(directed=True), dict(directed=False)],
 }
 
-DEGENERATE = ['one_edge', 'few_edges', 'sinks', 'isolated', 'loops', 'components', 'star', 'path', 'empty_rows', 'regular']
+DEGENERATE = ['one_edge', 'few_edges', 'sinks', 'isolated', 'loops', 'components', 'star', 'path', 'empty_rows', 'regular', 'hub_last']
 
 
 def degenerate_matrix(rng, fam, kind, nmax):
@@ -105,6 +105,16 @@ def degenerate_matrix(rng, fam, kind, nmax):
     elif fam == 'star':
         for i in range(1, n):
             add(0, i)
+    elif fam == 'hub_last':
+        # the LAST node is the hub of a star (the node of largest degree sits at the end of every array), next to a small clique
+        n = max(n, 7) if rng.random() < 0.7 else rng.choice([60, 300])
+        for i in range(4):
+            for j in range(i + 1, 4):
+                add(i, j)
+        for i in range(4, n - 1):
+            add(n - 1, i)
+            if not sym:
+                E.add((i, n - 1))
     elif fam == 'path':
         for i in range(n - 1):
             add(i, i + 1)
@@ -210,6 +220,8 @@ def run(ctx, scratch):
             for pi, params in enumerate(psets):
                 for rep in range(reps if pi == 0 else max(1, reps // 2)):
                     fam = rng.choice(DEGENERATE)
+                    if pi == 0 and rep == 0:
+                        fam = 'hub_last'      # every entry point once, independent of the stream: the node of largest degree is the LAST one
                     kind = cases.pick_kind(rng, d)
                     # get_cycles lists every simple cycle: its output (hence its running time) is exponential in dense graphs
                     spec, nr, nc = degenerate_matrix(rng, fam, kind, 8 if name == 'get_cycles' else nmax)
